@@ -95,6 +95,10 @@ def cases(ctx):
     for k in range(0, 90, 1 if (ctx.thorough or ctx.intensify) else 3):
         out.append({"backend": "s3cas", "topology": "separate", "clock": "real", "actors": 2, "kinds": ["append", "append"], "lock": "none",
                     "gate_requests": True, "no_model": True, "chooser": _other_commits_after_k(k)})
+    # the conditional pointer PUT of committer 1 times out in flight (no effect); the other committer's whole commit before each request
+    for k in range(0, 90, 1 if (ctx.thorough or ctx.intensify) else 3):
+        out.append({"backend": "s3cas", "topology": "separate", "clock": "real", "actors": 2, "kinds": ["append", "append"], "lock": "none",
+                    "gate_requests": True, "hint_put_fault": True, "no_model": True, "chooser": _other_commits_after_k(k)})
     # a committer whose fencing check fails must report a conflict
     out.append({"backend": "s3cas", "topology": "separate", "clock": "real", "actors": 2, "kinds": ["append", "append"], "lock": "none",
                 "held_script": {1: [False, True, True]}, "model_cfg": NOLOCK_CFG})
